@@ -28,7 +28,8 @@ META = {
              "partitions, >=4 rows and >=2 jobs open at once"),
     "abstract_measure": "distinct (op, shuffle_method, key kind) triples",
     "gates": {"quick": {"disk": 1200, "tasks": 1200, "multi_stage_tasks": 300, "empty_partition": 1200,
-                        "multi_open": 2000, "na_keys": 500, "cat_nonlexical_order": 400},
+                        "multi_open": 2000, "na_keys": 500, "cat_nonlexical_order": 400,
+                        "aligned_presorted_input": 500, "prior_sort_other_direction": 150},
               "thorough": {"disk": 1200}},
     "anchors": ["dask/dataframe/dask_expr/_shuffle.py", "dask/dataframe/shuffle.py"],
     "real": ["dask.dataframe.dask_expr (from_delayed/from_pandas, Shuffle/TaskShuffle/DiskShuffle, SortValues, "
@@ -121,6 +122,19 @@ def run_one(tape, cfg):
         na_position = ("last", "first")[tape.draw(2, "napos")]
         on_two = tape.chance(1, 4, "on2")
         subset_all = tape.chance(1, 3, "subset_all")
+        # "aligned": input sorted on the key, cut only where the key changes, as many output as input
+        # partitions -- the shape dask recognises as already sorted (no shuffle at all)
+        aligned = tape.chance(1, 4, "aligned")
+        if aligned:
+            df = df.sort_values("k", kind="stable", na_position="last").reset_index(drop=True)
+            df["v"] = np.arange(n)
+            ks = df["k"].astype(object).where(df["k"].notna(), "<NA>").tolist()
+            changes = [i for i in range(1, n) if ks[i] != ks[i - 1]]
+            cuts = sorted({changes[tape.draw(len(changes), "acut")] for _ in range(nin - 1)}) if changes else []
+            nin = len(cuts) + 1
+            nout = nin
+    if aligned:
+        out.probe("aligned_presorted_input")
     bounds = [0] + cuts + [n]
     pieces = [df.iloc[a:b] for a, b in zip(bounds[:-1], bounds[1:])]
     wl = {"rows": n, "keykind": kind, "keys": [str(x) for x in df["k"].tolist()], "w": df["w"].tolist(),
@@ -173,6 +187,13 @@ def run_one(tape, cfg):
                             seen[key] = i
             elif op == "sort_values":
                 by = ["k", "w"] if on_two else "k"
+                if tape.chance(1, 2 if aligned else 4, "prior"):
+                    # call history: the same frame was sorted in the other direction just before
+                    # (quantile divisions are cached per process)
+                    out.probe("prior_sort_other_direction")
+                    r0 = d.sort_values(by, npartitions=nout, ascending=not ascending, na_position=na_position,
+                                       shuffle_method=method)
+                    dask.compute(*r0.to_delayed())
                 r = d.sort_values(by, npartitions=nout, ascending=ascending, na_position=na_position,
                                   shuffle_method=method)
                 # partition by partition: .compute() of the whole frame may be optimised into a
